@@ -235,6 +235,10 @@ pub struct Conversation {
     /// shim in auto mode (no scripted actions); prepares hand out these (id, nparams), None = reject
     #[serde(default)]
     pub auto_ids: Option<Vec<Option<(u32, usize)>>>,
+    /// auto mode: per query/execute callback (in order), answer with this error kind instead of
+    /// completed(0, 0)
+    #[serde(default)]
+    pub auto_errs: Vec<Option<u16>>,
     /// the shim leaks, rather than drops, a RowWriter whose row-level call was refused
     #[serde(default)]
     pub forget_on_refusal: bool,
@@ -262,6 +266,7 @@ impl Conversation {
             fault: Fault::None,
             lockstep: false,
             auto_ids: None,
+            auto_errs: vec![],
             forget_on_refusal: false,
             param_takes: vec![],
             then_fail: vec![],
@@ -424,6 +429,7 @@ fn run_inner(c: &Conversation, tls: Option<std::sync::Arc<rustls::ServerConfig>>
         param_takes: c.param_takes.iter().cloned().collect(),
         then_fail: c.then_fail.iter().cloned().collect(),
         auto_ids: c.auto_ids.clone().unwrap_or_default().into_iter().collect(),
+        auto_errs: c.auto_errs.iter().cloned().collect(),
         ..Default::default()
     }));
     let shim = Shim::new(st.clone(), Some(tr.0.clone()));
@@ -636,4 +642,39 @@ pub fn client_stream_meta(c: &Conversation) -> (usize, Vec<usize>, Vec<u8>) {
         add(sc.cmd.payload_len_hint(), sc.seq);
     }
     (total, ends, last)
+}
+
+
+/// A small, ordinary connection (handshake, PING, a query answered with one text row of an
+/// integer, a string and a NULL, PING, QUIT) run on the calling thread; `Err` describes what a
+/// conformant client would find wrong with it.  Used right after a case to see whether that case
+/// left anything behind on the thread (see `engine::eval_case`).
+pub fn canary() -> Result<(), String> {
+    use crate::model::{check_reply, expectations};
+    use crate::vals::{Base, ColSpec, Val, Wrap};
+    let cols = vec![ColSpec::simple("n", T_LONGLONG, 0), ColSpec::simple("s", T_VAR_STRING, 0), ColSpec::simple("z", T_LONG, 0)];
+    let row = RowProg { cells: vec![Val::plain(Base::I64(-1234567890123)), Val::plain(Base::StrRef("canary".into())), Val { base: Base::I32(0), wrap: Wrap::None }], form: RowForm::Cols, offers: vec![] };
+    let prog = Program { steps: vec![Step::Set { cols, rows: vec![row], end: SetEnd::Finish }] };
+    let conv = Conversation::new(vec![Cmd::Ping, Cmd::Query { text: Blob::text("SELECT canary") }, Cmd::Ping, Cmd::Quit], vec![Action::Result(prog)]);
+    let o = run_with(&conv, None, false);
+    if !o.result.is_ok() {
+        return Err(format!("run_on returned {}", o.result.brief()));
+    }
+    let kinds: Vec<ReplyKind> = conv.cmds.iter().map(|sc| sc.cmd.reply_kind()).collect();
+    let d = decode_output(&o.out, &kinds);
+    if let Some(p) = &d.problem {
+        return Err(format!("its output is not a conformant stream: {}", p));
+    }
+    if d.stray_msgs != 0 || d.trailing_bytes != 0 {
+        return Err(format!("{} stray packets / {} stray bytes in its output", d.stray_msgs, d.trailing_bytes));
+    }
+    if d.phys.first().map(|p| p.seq) != Some(0) {
+        return Err("its greeting does not carry sequence id 0".into());
+    }
+    check_sequence_ids(&conv, &d).map_err(|m| format!("sequence ids: {}", m))?;
+    let exps = expectations(&conv);
+    for (i, (e, r)) in exps.iter().zip(&d.replies).enumerate() {
+        check_reply(e, r, true).map_err(|m| format!("reply to command {}: {}", i, m))?;
+    }
+    Ok(())
 }
